@@ -404,12 +404,15 @@ func (db *SingleBucketBackend) PutObject(
 
 	if objectDir != "." {
 		if err := db.fs.MkdirAll(objectDir, 0777); err != nil {
+			removeNewDirs(db.fs, path.Dir(objectName), ".")
 			return result, err
 		}
 	}
 
 	f, err := db.fs.Create(objectFilePath)
 	if err != nil {
+		// Empty directories would show up as common prefixes:
+		removeNewDirs(db.fs, path.Dir(objectName), ".")
 		return result, err
 	}
 
